@@ -554,12 +554,24 @@ class Ev:
 
     def _const_rows(self, g, env, module):
         """Environments for the iterations of a comprehension over a constant iterable (module-level tuple/list/dict/enum), or None."""
+        items = None
         if any(isinstance(x, ast.Name) and x.id in env for x in ast.walk(g.iter)):
-            return None
-        try:
-            items = self.repo._fold_iter(module, g.iter, None, 0)
-        except (NotConst, AnalysisError):
-            return None
+            # a local / parameter bound to a constant table
+            try:
+                v = self.ev(g.iter, env, module)
+            except Unsupported:
+                return None
+            if isinstance(v, Py) and isinstance(v.v, (tuple, list)):
+                items = list(v.v)
+            elif isinstance(v, Py) and isinstance(v.v, dict):
+                items = list(v.v)
+            else:
+                return None
+        if items is None:
+            try:
+                items = self.repo._fold_iter(module, g.iter, None, 0)
+            except (NotConst, AnalysisError):
+                return None
         if len(items) > 64:
             return None
         rows = []
